@@ -194,7 +194,7 @@ struct Gen
                 L = rng.chance(1, 8) ? 65535 : rng.range(1, 16);
                 break;
             case 6:
-                L = rng.range(per + 1, per * 3 + 5);
+                L = rng.chance(1, 2) ? rng.range(per + 1, per * 3 + 5) : (1LL << rng.range(4, 16)) + rng.range(-2, 2);  // powers of two +-2 (255/256, 32767/32768, 65535)
                 break;
             default:
                 L = rng.range(1, std::max<int64_t>(2, std::min<int64_t>(per, 120)));
